@@ -1,6 +1,7 @@
 """C19 - the client reports exactly what the server answered."""
 import struct
 
+from kmip.core import attributes as cattrs
 from kmip.core import enums
 from kmip.core import objects as cobjects
 from kmip.core import exceptions as core_exc
@@ -78,6 +79,33 @@ def make_failure(orig, status, reason, message, keep_operation=True):
         else:
             items.append(k)
     return T.encode((tree[0], tree[1], items))
+
+
+def make_success(orig, payload_kids):
+    """The server's response with its single item replaced by a scripted success carrying `payload_kids` (for
+    operations this server does not implement, or response fields it never sends)."""
+    tree = T.decode(orig, strict=False)
+    items = []
+    for k in tree[2]:
+        if k[0] == T.T_BATCH_ITEM:
+            kids = [c for c in k[2] if c[0] in (T.T_OPERATION, T.T_UNIQUE_BATCH_ITEM_ID)]
+            kids.append((T.T_RESULT_STATUS, T.ENUM, 0))
+            kids.append((0x42007C, T.STRUCTURE, list(payload_kids)))
+            items.append((k[0], k[1], kids))
+        else:
+            items.append(k)
+    return T.encode((tree[0], tree[1], items))
+
+
+def name_template(tag, text):
+    """A (Private/Public Key) Template-Attribute structure holding one Name attribute."""
+    return (tag, T.STRUCTURE, [(0x420008, T.STRUCTURE, [
+        (0x42000A, T.TEXT, 'Name'),
+        (0x42000B, T.STRUCTURE, [(0x420055, T.TEXT, text), (0x420054, T.ENUM, 1)])])])
+
+
+def template_names(ta):
+    return [a.attribute_value.name_value.value for a in ta.attributes] if ta is not None else None
 
 
 def setup_env(srv, rng):
@@ -263,6 +291,36 @@ def calls(rng, env, version):
                     else 'returned versions %r' % (res.protocol_versions,)))
     out.append(('proxy.get_attribute_list', lambda c: c.proxy.get_attribute_list(uid_any),
                 lambda res, p: None if res.uid == first(p, T.T_UNIQUE_IDENTIFIER) else 'returned uid %r' % (res.uid,)))
+    # operations answered by a scripted server (this server does not implement them, or never sends these fields)
+    n1, n2 = 'priv-%d' % rng.randrange(10 ** 6), 'pub-%d' % rng.randrange(10 ** 6)
+    u1, u2 = str(rng.randrange(10 ** 4)), str(rng.randrange(10 ** 4))
+    if version < E.KMIPVersion.KMIP_2_0:
+        pair_payload = [(0x420066, T.TEXT, u1), (0x42006F, T.TEXT, u2), name_template(0x420065, n1), name_template(0x42006E, n2)]
+
+        def pair_check(res, p):
+            got = (getattr(res.private_key_uuid, 'value', res.private_key_uuid), getattr(res.public_key_uuid, 'value', res.public_key_uuid),
+                   template_names(res.private_key_template_attribute), template_names(res.public_key_template_attribute))
+            want = (u1, u2, [n1], [n2])
+            return None if got == want else 'returned (private id, public id, private template names, public template names) = %r, ' \
+                'the response carries %r' % (got, want)
+        out.append(('proxy.rekey_key_pair', lambda c: c.proxy.rekey_key_pair(
+            private_key_uuid=cattrs.PrivateKeyUniqueIdentifier(env['priv'].uid)), pair_check, pair_payload))
+        out.append(('proxy.create_key_pair', lambda c: c.proxy.create_key_pair(
+            common_template_attribute=cobjects.TemplateAttribute(attributes=[
+                rig.attr(E.AttributeType.CRYPTOGRAPHIC_ALGORITHM, CA.RSA), rig.attr(E.AttributeType.CRYPTOGRAPHIC_LENGTH, 1024)],
+                tag=E.Tags.COMMON_TEMPLATE_ATTRIBUTE)), pair_check, pair_payload))
+        rk_payload = [(T.T_UNIQUE_IDENTIFIER, T.TEXT, u1), name_template(0x420091, n1)]
+        out.append(('proxy.rekey', lambda c: c.proxy.rekey(uuid=env['sym'].uid),
+                    lambda res, p: None if (res.get('unique_identifier'), template_names(res.get('template_attribute'))) == (u1, [n1])
+                    else 'returned %r' % ({k_: (template_names(v_) if k_ == 'template_attribute' else v_) for k_, v_ in res.items()},),
+                    rk_payload))
+    lease, count = rng.randrange(1, 10 ** 6), rng.randrange(1, 10 ** 6)
+    ck_payload = [(T.T_UNIQUE_IDENTIFIER, T.TEXT, u2), (0x420096, T.LONG, count), (0x42002C, T.INTEGER, 12), (0x420049, T.INTERVAL, lease)]
+    out.append(('proxy.check', lambda c: c.proxy.check(uuid=env['sym'].uid, usage_limits_count=1, cryptographic_usage_mask=[M.ENCRYPT],
+                                                       lease_time=1),
+                lambda res, p: None if (res.get('unique_identifier'), res.get('usage_limits_count'),
+                                        sorted(m_.value for m_ in res.get('cryptographic_usage_mask', [])), res.get('lease_time')) ==
+                (u2, count, [4, 8], lease) else 'returned %r, the response carries %r' % (res, (u2, count, 12, lease)), ck_payload))
     if version >= E.KMIPVersion.KMIP_2_0:
         out.append(('set_attribute', lambda c: c.set_attribute(env['sympre'].uid, attribute_name='Sensitive', attribute_value=True),
                     lambda res, p: None if res == first(p, T.T_UNIQUE_IDENTIFIER) else 'returned %r' % (res,)))
@@ -296,7 +354,9 @@ def run_case(ctx, case):
             for rnd in range(10):
                 version = rng.choice(KV)
                 client.kmip_version = version
-                for name, thunk, checker in calls(rng, env, version):
+                for entry in calls(rng, env, version):
+                    name, thunk, checker = entry[:3]
+                    script = entry[3] if len(entry) > 3 else None
                     mode = rng.choice(('plain', 'plain', 'fail', 'fail', 'fail-nomsg', 'status', 'truncate'))
                     planned = {}
                     if mode in ('fail', 'fail-nomsg', 'status'):
@@ -318,6 +378,9 @@ def run_case(ctx, case):
                         sock.transform = trunc
                     else:
                         sock.transform = None
+                        if script is not None:
+                            sock.transform = lambda o, sc=script: make_success(o, sc)
+                            ctx.count('scripted_success_responses')
                     if name == 'get_wrapped_key' and sock.transform is None and env['wrapped'].extra.get('kwd_tree'):
                         # deliver the key wrapping data as sent by the registering client, whatever this server stored
                         def inject(o, tree_=env['wrapped'].extra['kwd_tree']):
@@ -374,8 +437,12 @@ def run_case(ctx, case):
                         ctx.cell(name, vname, cls, type(raised).__name__ if raised else 'returned')
                         if raised is None and name.startswith('proxy.'):
                             try:
-                                got = (result.result_status.value.value, result.result_reason.value.value,
-                                       result.result_message.value if result.result_message is not None else None)
+                                if isinstance(result, dict):       # rekey / check return plain dictionaries
+                                    got = (result['result_status'].value, getattr(result['result_reason'], 'value', result['result_reason']),
+                                           result['result_message'])
+                                else:
+                                    got = (result.result_status.value.value, result.result_reason.value.value,
+                                           result.result_message.value if result.result_message is not None else None)
                             except Exception as e:
                                 got = ('unreadable', type(e).__name__, None)
                             want = (it['status'], it['reason'], it['message'])
